@@ -48,9 +48,20 @@ def call(fn, builtin_ids):
     return ident(r, builtin_ids)
 
 
+TYPES = ["optimizer", "sampler", "realization_filter", "function_estimator", "plan_handler", "plan_step"]
+
+
 def drive(sc):
-    ptype = sc.get("ptype", PTYPE)
+    import zlib
+    # every plug-in type: the type used by a history is drawn from the history itself
+    idx = zlib.crc32(str(sc["calls"]).encode()) % len(TYPES)
+    ptype = sc.get("ptype", TYPES[idx])
     mgrs = [PluginManager(), PluginManager()]
+    # each manager has already registered a plug-in of another type (registrations of one type, or on one manager,
+    # never show up under another type or on another manager)
+    other = TYPES[(TYPES.index(ptype) + 1 + idx % 5) % len(TYPES)]
+    mgrs[0].add_plugin(other, "rvother-first", TestPlugin(1))
+    mgrs[1].add_plugin(other, "rvother-second", TestPlugin(2), prioritize=True)
     plugs = {(m, i): TestPlugin(i) for m in (0, 1) for i in (1, 2, 3)}
     builtin_ids, regs = {}, []
     for mgr in mgrs:
@@ -82,6 +93,11 @@ def drive(sc):
     for m in (1, 2):
         trace.append({"ev": "Call", **blank, "op": "list", "m": m, "ret": "ok",
                       "names": [name for name, _ in mgrs[m - 1].plugins(ptype)]})
+    # the other type still holds exactly what each manager registered there
+    leaked = [n for m, own in ((0, "rvother-first"), (1, "rvother-second"))
+              for n, _ in mgrs[m].plugins(other) if n.startswith("rvother") and n != own]
+    if leaked or any(n in ("x", "y", "z") for m in (0, 1) for n, _ in mgrs[m].plugins(other)):
+        trace.append({"ev": "Call", **blank, "op": "list", "m": 1, "ret": "ok", "names": ["<registration leaked to another type or manager>"]})
     calls = sc["calls"]
     nontrivial = any(a["op"] == "add" and any(b["op"] == "get" and b["plug"] == "" and b["m"] == a["m"] and b["meth"] in SETS[a["p"]]
                                                 for b in calls[i + 1:]) for i, a in enumerate(calls))
@@ -121,7 +137,7 @@ def extra_scenarios(tier, seed):
 CHECK = PropertyCheck(
     prop="C19", trace_module="Trace_C19", drive=drive, model_runs=model_runs, extra_scenarios=extra_scenarios,
     rule=("TLC enumerates every call sequence of length 3 (thorough: model-checks length 4) over add_plugin (normal/prioritized, two "
-          "case variants) / get_plugin / is_supported on two managers with three test plug-ins (overlapping methods, one "
+          "case variants; the plug-in type of a history is one of the six types, each manager has registered another type before) / get_plugin / is_supported on two managers with three test plug-ins (overlapping methods, one "
           "non-discoverable) on top of the installed built-ins; random histories of length 4-8. Each history is executed on real "
           "PluginManager objects and replayed against PluginManager.tla. Non-trivial: an add followed by a bare-name lookup the added "
           "plug-in could answer."),
